@@ -5,6 +5,7 @@ import random
 import z3
 
 from . import bridge as bridge_mod
+from . import cliagree
 from . import driver
 from . import genprog
 from .checks_common import generic_replay
@@ -39,6 +40,9 @@ def generate(tier, seed):
              ('p(a). :- a, not a.', 'p(a).'), ('q :- a0 < a. :- a, not a.', 'q.'), ('p(a) :- a.', 'p(a) :- a, not not a.'),
              ('q :- s, hs < hs0.', 'q :- s.'), ('q :- s, ts = ts.', 'q :- s, hs != ts.'), ('p(hs) :- s.', 'p(ts) :- s.'),
              ('q(hs, ts) :- s.', 'q(hs, ts) :- s, hs < ts.'),
+             # variables named like tau*'s fresh variables that occur only below a unary minus / only in one literal
+             ('p(Z) :- q(-Z).', 'p(X) :- q(0).'), ('p(Z) :- q(-Z).', 'p(X) :- q(-X).'), ('p(Z1) :- q(X, -Z1), X < -Z.', 'p(Y) :- q(X, -Y), X < -Z.'),
+             ('p(V1) :- q(-V1).', 'p(X) :- q(-X).'), ('p :- q(-X).', 'p :- q(Y), Y = -X.'),
              # ... and a constant that already carries the name the renaming would pick (they were merged until fix 7c0d6c6)
              ('q :- s, hs__s = hs.', 'q :- s.'), ('q :- s, hs__s != hs.', 'q :- s.')]
     n = 150 if tier == 'quick' else 676
@@ -48,6 +52,9 @@ def generate(tier, seed):
     # grammar-generated programs over a confusable name pool, paired with a variant (equivalent or not) of themselves
     for (l, r) in genprog.pairs(seed, 40 if tier == 'quick' else 1500):
         items.append({'family': 'generated', 'left': l, 'right': r})
+    for (l, r) in [('p :- q.', 'p :- not not q.'), ('p(X) :- q(X), not r(X, X).', 'p(X + 1) :- q(X).'), ('{p(X)} :- q(X).', ':- p(X), q(X).'),
+                   ('p(a). q(b) :- p(a).', 'p(a) :- s, a < s1. s.'), ('p(1..3).', 'p(X) :- X = 1..3, not q(X).'), ('', 'p.')]:
+        items.append({'family': 'cli-agreement', 'left': l, 'right': r, 'cli': True})
     return items
 
 
@@ -62,8 +69,35 @@ def copy_names(b, name, arity):
     return _COPY[k]
 
 
+def flags_of(direction, dec, simp, eqb, rep=None):
+    fl = ['--direction', direction, '--decomposition', dec]
+    if rep:
+        fl += ['--formula-representation', rep]
+    if not simp:
+        fl.append('--no-simplify')
+    if not eqb:
+        fl.append('--no-eq-break')
+    return fl
+
+
+def check_cli(b, item):
+    left, right = item['left'], item['right']
+    out = []
+    for rep, direction, dec, simp, eqb in (('tau-star', 'universal', 'sequential', True, True), ('mu', 'forward', 'independent', False, False),
+                                           ('tau-star', 'backward', 'sequential', True, False), ('mu', 'universal', 'independent', True, True)):
+        req = ('strong_task', Q(left), Q(right), Q(rep), Q(direction), Q(dec), Q(str(simp).lower()), Q(str(eqb).lower()))
+        # file names whose alphabetical order is the reverse of the argument order
+        r = cliagree.verify(b, item['family'], '%s||%s#%s-%s-%s-%s-%s' % (left, right, rep, direction, dec, simp, eqb), 'strong',
+                            {'zz_first.lp': left + '\n', 'aa_second.lp': right + '\n'}, ['zz_first.lp', 'aa_second.lp'], req,
+                            flags_of(direction, dec, simp, eqb, rep))
+        out.append(r)
+    return out
+
+
 def check_item(item):
     b = bridge_mod.get()
+    if item.get('cli'):
+        return check_cli(b, item)
     left, right = item['left'], item['right']
     lp = b.call('parse_program', Q(left))[0]
     rp = b.call('parse_program', Q(right))[0]
@@ -171,7 +205,7 @@ def replay(r):
 
 def describe(tier):
     return {
-        'rule': 'grammar-generated programs over a confusable name pool (av/genprog.py) paired with a variant of themselves; fixed pairs (homonymous atoms/constants, copy-name constants, the recorded __s collision); ordered pairs of programs from a pool of 26 small programs (propositional, first-order, arithmetic, '
+        'rule': 'CLI agreement: 6 pairs x 4 flag sets through `anthem verify --equivalence strong --save-problems` (argument order differs from alphabetical file order) must print/save byte for byte what the library call returns; grammar-generated programs over a confusable name pool (av/genprog.py) paired with a variant of themselves; fixed pairs (homonymous atoms/constants, copy-name constants, the recorded __s collision); ordered pairs of programs from a pool of 26 small programs (propositional, first-order, arithmetic, '
                 'intervals, choice, constraints, symbols clashing with 0-ary predicates) x {tau-star, mu} x 3 directions x 2 '
                 'decompositions x simplify x eq-break (48 configurations per pair); one obligation per (pair, configuration, '
                 'direction); problem families identical to an earlier configuration of the same pair are decided once; '
